@@ -1037,27 +1037,45 @@ func (h *hist) classify(o *hop, v *victim, adjBefore map[any][]any) string {
 		n     any
 		shape string
 	}
-	seen := map[any]bool{v.node: true}
-	queue := []item{{v.node, ""}}
-	for len(queue) > 0 {
-		it := queue[0]
-		queue = queue[1:]
-		if target[it.n] && it.shape != "" {
-			return it.shape
-		}
-		for _, to := range adjBefore[it.n] {
-			if seen[to] {
-				continue
+	search := func() string {
+		seen := map[any]bool{v.node: true}
+		queue := []item{{v.node, ""}}
+		for len(queue) > 0 {
+			it := queue[0]
+			queue = queue[1:]
+			if target[it.n] && it.shape != "" {
+				return it.shape
 			}
-			seen[to] = true
-			s := it.shape
-			if s == "" {
-				if x, ok := shapeOf(edge{it.n, to}); ok {
-					s = x
+			for _, to := range adjBefore[it.n] {
+				if seen[to] {
+					continue
 				}
+				seen[to] = true
+				s := it.shape
+				if s == "" {
+					if x, ok := shapeOf(edge{it.n, to}); ok {
+						s = x
+					}
+				}
+				queue = append(queue, item{to, s})
 			}
-			queue = append(queue, item{to, s})
 		}
+		return ""
+	}
+	if s := search(); s != "" {
+		return s
+	}
+	// an assignment to a field of an addressed message works on that message's containers (a repeated
+	// field is refilled in place): they count as addressed too
+	for _, n := range o.opNodes {
+		for _, child := range adjBefore[n] {
+			if nodeKind(child) != "sub" {
+				target[child] = true
+			}
+		}
+	}
+	if s := search(); s != "" {
+		return s
 	}
 	// the aliasing edge points at a node the operation addressed (e.g. the frozen message itself was shared)
 	for _, n := range o.opNodes {
